@@ -245,7 +245,7 @@ impl<'a> SimStream<'a> {
             Err(0) => (0, lp),
             Err(i) => (self.data.get(self.edges[i - 1]).copied().unwrap_or(0), lp - self.edges[i - 1]),
         };
-        let key = mix(mix(mix(0x11FE, code as u64), within as u64), ahead as u64);
+        let key = mix(mix(mix(0x11FE, code as u64), (within as u64).min(1024)), ahead as u64);
         self.interleavings.insert(key);
         stepped
     }
